@@ -21,5 +21,6 @@ pub fn targets() -> Vec<Target> {
         Target { name: "c09_impossible", props: "C09", policy: PanicPolicy::AllViolations, max_len: 2048, run: c09::c09_impossible },
         Target { name: "c06_golden", props: "C06", policy: PanicPolicy::AllViolations, max_len: 16, run: golden::c06_golden },
         Target { name: "c20_unsafe", props: "C20", policy: PanicPolicy::CleanAllowed, max_len: 1024, run: c20::c20_unsafe },
+        Target { name: "c20_user_impls", props: "C20", policy: PanicPolicy::CleanAllowed, max_len: 512, run: c20::c20_user_impls },
     ]
 }
